@@ -133,9 +133,10 @@ def asm(*parts):
 class Asm:
     """Assembler with labels (two-byte jump targets)."""
 
-    def __init__(self):
+    def __init__(self, label_width=2):
         self.items = []
         self.labels = {}
+        self.label_width = label_width   # bytes in a label push (3 when the code is longer than 65535 bytes)
 
     def emit(self, *parts):
         self.items.append(("raw", asm(*parts)))
@@ -184,14 +185,14 @@ class Asm:
             elif kind == "pushf":
                 pos += 1 + v[1]
             else:
-                pos += 3
+                pos += 1 + self.label_width
         self.labels["__len__"] = pos
         out = b""
         for kind, v in self.items:
             if kind == "raw":
                 out += v
             elif kind == "pushl":
-                out += bytes([0x61]) + self.labels[v].to_bytes(2, "big")
+                out += bytes([0x5f + self.label_width]) + self.labels[v].to_bytes(self.label_width, "big")
             elif kind == "pushf":
                 fn, width = v
                 out += push(fn(self.labels) & ((1 << (8 * width)) - 1), width)
